@@ -347,7 +347,7 @@ def eval_stage(ev, prop, universe, checks, tier, seed, timeout=1500, label=None,
                "SMOnlyThere; action properties InputMajorOrder ChildDepth DocUnchanged")
     if universe == "C15":
         _sorted_docs_first(cases)
-    mism, summary = run_replay("replay", ["--checks", checks], cases)
+    mism, summary = run_replay("replay", ["--checks", checks], cases, tier=tier)
     ev.traces += summary["cases"]
     ev.evaluations += summary["cases"]
     ev.distinct_nontrivial += summary["nonempty_expect"]
